@@ -28,6 +28,8 @@ def as_data(v):
 def to_carr(v):
     if isinstance(v, CArr):
         return v
+    if isinstance(v, range):
+        v = list(v)
     if isinstance(v, (list, tuple)):
         def conv(x):
             if isinstance(x, (list, tuple)):
